@@ -124,6 +124,9 @@ def finish(rep, pid, extra_cov=None, level_note=None):
         elif verdict == "not_reproduced":
             # the machinery disagrees with the real code: never a violation
             rep.infra.append({"fn": fn.sig.dem, "detail": "counterexample of %s does not reproduce natively (model/lowering defect?)" % f0["property"]})
+        elif t["mode"] != "concrete":
+            # a failure seen only under an abstraction (uninterpreted arithmetic) is never a verdict unless it replays
+            rep.undecided.append({"fn": fn.sig.dem, "detail": "failed only under abstraction (%s): %s; not reproduced on the real code" % (t["mode"], f0["property"])})
         elif verdict == "no_input" or not is_post:
             # frame / pointer / unwinding / source-assert obligations carry no replayable postcondition
             viol_lines.append("VIOLATION property=%s replay=%s no-failing-input-found" % (pid, path))
